@@ -44,6 +44,7 @@ type specEnv struct {
 	pos    token.Pos
 	locals func(obj types.Object) (*Cell, bool)
 	labels map[string]*State
+	loop   *loopInfo
 }
 
 var reRes = regexp.MustCompile(`\$r([0-9]+)`)
@@ -168,6 +169,13 @@ func (x *exec) evalClause(cl *Clause, s *State, at token.Pos) Value {
 	}
 	env := x.ownEnv(s)
 	env.info = be.info
+	if at.IsValid() {
+		for _, li := range x.loops {
+			if li.pos == at {
+				env.loop = li
+			}
+		}
+	}
 	return env.eval(be.expr)
 }
 
@@ -651,7 +659,7 @@ func (env *specEnv) mapGet(m *Term, k Value, mtT types.Type, wantHas bool) Value
 		h := e.heapGet(s, key+"#val"+l.comp, Array(Int, Array(ks, l.sort)))
 		ts[k] = c.Select(c.Select(h, m), kt)
 	}
-	return e.mergeVal(has, e.fromLeaves(mt.Elem(), ts), e.zero(mt.Elem()))
+	return e.mergeVal(has, e.fromLeaves(mt.Elem(), ts, s), e.zero(mt.Elem()))
 }
 
 func (env *specEnv) evalCall(n *ast.CallExpr) Value {
@@ -747,6 +755,60 @@ func (env *specEnv) evalCall(n *ast.CallExpr) Value {
 			return c.Quant("forall", bound, c.Implies(c.And(guards...), body), nil)
 		}
 		return c.Quant("exists", bound, c.And(c.And(guards...), body), nil)
+	case "fresh_":
+		// allocated after the old state (callee-fresh)
+		var r *Term
+		switch v := env.eval(n.Args[0]).(type) {
+		case SliceV:
+			r = v.Arr
+		case PtrV:
+			rr, err := e.refOfPtr(v)
+			if err != nil {
+				return PoisonV{err.Error()}
+			}
+			r = rr
+		case *Term:
+			r = v
+		case IfaceV:
+			r = v.Box
+		default:
+			return PoisonV{"fresh_ argument"}
+		}
+		base := env.cur.next
+		if env.old != nil {
+			base = env.old.next
+		}
+		return c.Le(base, r)
+	case "samearr_":
+		a, ok1 := env.eval(n.Args[0]).(SliceV)
+		b, ok2 := env.eval(n.Args[1]).(SliceV)
+		if !ok1 || !ok2 {
+			return PoisonV{"samearr_ arguments"}
+		}
+		return c.And(c.Eq(a.Arr, b.Arr), c.Eq(a.Off, b.Off))
+	case "typeis_":
+		iv, ok := env.eval(n.Args[0]).(IfaceV)
+		if !ok {
+			return PoisonV{"typeis_ argument"}
+		}
+		T := env.info.Instances[n.Fun.(*ast.IndexExpr).X.(*ast.Ident)].TypeArgs.At(0)
+		return c.Eq(iv.Tag, e.typeTag(T))
+	case "as_":
+		iv, ok := env.eval(n.Args[0]).(IfaceV)
+		if !ok {
+			return PoisonV{"as_ argument"}
+		}
+		T := env.info.Instances[n.Fun.(*ast.IndexExpr).X.(*ast.Ident)].TypeArgs.At(0)
+		return x.unbox(env.state(), iv, T)
+	case "rangeidx_":
+		if env.loop != nil {
+			if cell, _ := x.rangeIndexOf(env.loop, env.state()); cell != nil {
+				if v, ok := env.state().cells[cell].(*Term); ok {
+					return c.Add(v, c.IntC(1))
+				}
+			}
+		}
+		return PoisonV{"$i outside a range loop"}
 	case "result_":
 		tv := env.info.Types[n.Args[0]]
 		k, _ := constantInt(tv)
@@ -898,14 +960,14 @@ func (env *specEnv) callSpecOrPure(fo *types.Func, args []Value, n *ast.CallExpr
 				return PoisonV{"ghost field of non-scalar type"}
 			}
 			h := e.heapGet(env.state(), "ghost:"+fo.Name(), Array(Int, ls[0].sort))
-			return e.fromLeaves(rt, []*Term{c.Select(h, ts[0])})
+			return e.fromLeaves(rt, []*Term{c.Select(h, ts[0])}, env.state())
 		}
 		ls := e.leavesOf(rt)
 		if len(ls) != 1 {
 			return PoisonV{"uninterpreted spec function of non-scalar result"}
 		}
 		r := c.App("spec:"+fo.Name(), ls[0].sort, ts...)
-		return e.fromLeaves(rt, []*Term{r})
+		return e.fromLeaves(rt, []*Term{r}, env.state())
 	}
 	// program function: inline when it has a body (pure use is the author's responsibility;
 	// the callee is executed on a scratch copy of the state, so it cannot change anything)
@@ -1173,8 +1235,8 @@ func (x *exec) havocModifies(s, old *State, cl *Clause, blk *Block, fn *ssa.Func
 			}
 			continue
 		}
-		wild := strings.Contains(item, "[_]")
-		sub := &Clause{Kind: "modifies", Text: strings.Replace(item, "[_]", "[wild_()]", -1), File: cl.File, Line: cl.Line, Label: item}
+		wild := strings.Contains(item, "[_]") || strings.Contains(item, "[__]")
+		sub := &Clause{Kind: "modifies", Text: wildText(item), File: cl.File, Line: cl.Line, Label: item}
 		be := e.bindAddr(sub, cs)
 		if be.err != nil {
 			x.bindFail(cl, be.err)
@@ -1184,6 +1246,11 @@ func (x *exec) havocModifies(s, old *State, cl *Clause, blk *Block, fn *ssa.Func
 		env.info = be.info
 		x.havocLvalue(s, old, env, be.expr, wild, cl)
 	}
+}
+
+func wildText(item string) string {
+	item = strings.Replace(item, "[__]", "[wildcap_()]", -1)
+	return strings.Replace(item, "[_]", "[wild_()]", -1)
 }
 
 func (e *Engine) bindAddr(cl *Clause, cs *calleeScope) *boundExpr {
@@ -1232,30 +1299,11 @@ func (x *exec) havocLvalue(s, old *State, env *specEnv, ex ast.Expr, wild bool, 
 		}
 		return
 	}
-	// wildcard forms: base[_] (all elements of slice base) optionally followed by .field path
-	var fields []*ast.SelectorExpr
-	cur := ex
-	for {
-		if se, ok := cur.(*ast.SelectorExpr); ok {
-			fields = append([]*ast.SelectorExpr{se}, fields...)
-			cur = se.X
-			continue
-		}
-		break
-	}
-	ie, ok := cur.(*ast.IndexExpr)
+	base, el, fields, ok := env.wildParts(ex)
 	if !ok {
 		x.bindFail(cl, fmt.Errorf("unsupported wildcard form"))
 		return
 	}
-	bt := env.typeOf(ie.X)
-	sl, ok := bt.Underlying().(*types.Slice)
-	base, ok2 := env.eval(ie.X).(SliceV)
-	if !ok || !ok2 {
-		x.bindFail(cl, fmt.Errorf("wildcard base is not a slice"))
-		return
-	}
-	el := sl.Elem()
 	if structOf(el) == nil {
 		if len(fields) > 0 {
 			x.bindFail(cl, fmt.Errorf("field of non-struct element"))
@@ -1302,12 +1350,5 @@ func (x *exec) havocLvalue(s, old *State, env *specEnv, ex ast.Expr, wild bool, 
 		}
 		return
 	}
-	if len(fields) == 1 {
-		sel := env.info.Selections[fields[0]]
-		if sel != nil && len(sel.Index()) == 1 {
-			havocField(el, sel.Index()[0])
-			return
-		}
-	}
-	x.bindFail(cl, fmt.Errorf("unsupported wildcard field path"))
+	havocField(el, fields[0])
 }
